@@ -672,6 +672,8 @@ A(impl_specs(ARR, "Array",
              "factory_ok(self.factory) && forall|i: int| 0 <= i < self.inner@.len() ==> same_shape(arr_proto(self.factory), (#[trigger] self.inner@[i]).mv())"))
 M(ARR, "write")
 M(ARR, "read", nloops=1,
+  # an array is read "until the end": the loop is left only at an element that could not be read (every exit of the loop)
+  claims=[(r"break;", 0, "proof { assert(element is None); }", "before", "C18,C10,C06,C05,C03", "array-read-stops-only-at-an-unreadable-element")],
   body_sub=[(r"\(self\.factory\)\(\)", "self.factory.call()"), (r"self\.inner\.push\(Box::new\(e\)\)", "self.inner.push(box_dyn(Box::new(e)))")],
   pre="let ghost r0 = reader.rest(); let ghost p = arr_proto(self.factory); let ghost n0 = self.inner@.len(); proof { lemma_suffix_refl(r0); broadcast use lemma_suffix_trans_b; }",
   loops={1: """invariant self.factory == old(self).factory, p == arr_proto(self.factory), factory_ok(self.factory), r0 == old(reader).rest(), n0 == old(self).inner@.len(),
